@@ -31,6 +31,7 @@ const (
 func init() {
 	core.Register(&core.Check{
 		ID:        "C07",
+		Also:      []string{"C07R"}, // concurrent mempool lane under the race detector (race.go)
 		Level:     "exploration",
 		Technique: "history monitor over real executions: generated chains on two real replicas (real application, mempool, stores), an attacker re-using inputs at every position, accept/reject log, and an offline oracle over the committed chain read back from the block store",
 		Rule: "case = one generated chain of 5-8 blocks on a proposer and a validator replica (optionally receiving the traffic by gossip) with honest traffic: transfers, token transfers, account->hidden, hidden->hidden with ring size 1 and 2-6, hidden->account, out-of-order nonce submission, late arrivals that stay pooled across a commit; " +
